@@ -8,6 +8,8 @@
 //   C:now:map:p0,p1,..   the same, but the save crashes: sector s of the file holds the state after p_s bytes of the write stream
 //   R:now                load the session and report its content
 //   N                    the client forgets its cookie
+//   J:hex                raw bytes are planted into the session file the cookie names (J[1]; J[0] when the cookie names none)
+//   B:now:mb             like R, with the address space limited to what the process uses now + mb MiB (RLIMIT_AS) during the load
 // answer: one token per op: W[n]  (n = number of write calls seen), C[n], R=none | R=<map> | R=EXC(..), N; each followed by
 //   {files=<number of files in the directory>}
 #include <cppcms/session_interface.h>
@@ -26,6 +28,9 @@
 #include <string.h>
 #include <time.h>
 #include <ctype.h>
+#include <sys/resource.h>
+#include <stdio.h>
+#include <new>
 #include <algorithm>
 #include <map>
 #include <set>
@@ -202,10 +207,25 @@ int main()
 						(void)old_cookie;
 					}
 				}
-				else if(op == 'R' && a.size() == 2) {
+				else if(op == 'J' && a.size() == 2) {
+					std::string sid = (j.value.size() == 33 && j.value[0] == 'I') ? j.value.substr(1) : std::string();
+					if(sid.empty()) out << "J[0]";
+					else { spit(dir + "/" + sid, unhex(a[1])); out << "J[1]"; }
+				}
+				else if((op == 'R' && a.size() == 2) || (op == 'B' && a.size() == 3)) {
 					g_now = (time_t)strtoll(a[1].c_str(), 0, 10);
 					cppcms::session_interface si(pool, j);
-					bool ok = si.load();
+					bool ok;
+					if(op == 'B') {
+						unsigned long mb = strtoul(a[2].c_str(), 0, 10), pages = 0;
+						{ FILE *f = fopen("/proc/self/statm", "r"); if(f) { if(fscanf(f, "%lu", &pages) != 1) pages = 0; fclose(f); } }
+						struct rlimit old_l, new_l; getrlimit(RLIMIT_AS, &old_l);
+						new_l = old_l; new_l.rlim_cur = rlim_t(pages) * rlim_t(sysconf(_SC_PAGESIZE)) + rlim_t(mb) * 1048576u;
+						if(pages == 0 || setrlimit(RLIMIT_AS, &new_l) != 0) throw 1;
+						try { ok = si.load(); } catch(...) { setrlimit(RLIMIT_AS, &old_l); throw; }
+						setrlimit(RLIMIT_AS, &old_l);
+					}
+					else ok = si.load();
 					std::set<std::string> ks = si.key_set();
 					if(!ok) out << "R=none";
 					else {
